@@ -86,7 +86,7 @@ class Result:
         if self._sample_kinds[kind] < per_kind and \
                 len(self.samples) < MAX_SAMPLES * 3:
             self._sample_kinds[kind] += 1
-            self.samples.append({"kind": kind, "case": case})
+            self.samples.append({"kind": kind, "case": _abridge(case)})
 
     def violate(self, kind, case, expected=None, observed=None, detail=None,
                 mechanism=None, vsig=None):
@@ -132,6 +132,21 @@ class Result:
         with open(tmp, "w") as f:
             json.dump(data, f)
         os.replace(tmp, path)
+
+
+def _abridge(x, limit=1500):
+    """Samples are illustrations: long strings are cut (witnesses of
+    violations are kept whole)."""
+    if isinstance(x, str):
+        if len(x) > limit:
+            return x[:limit // 2] + " ...[%d characters]... " % len(x) + \
+                x[-limit // 4:]
+        return x
+    if isinstance(x, dict):
+        return {k: _abridge(v, limit) for k, v in x.items()}
+    if isinstance(x, (list, tuple)):
+        return [_abridge(v, limit) for v in x]
+    return x
 
 
 def _js(x):
